@@ -39,11 +39,12 @@ func refServiceMatch(sip bool, user, host, whole string) bool {
 func VC03_Decision() {
 	L := rt.Param("L")
 	routeKind := rt.Choice("route", 4)   // 0 none, 1 own only, 2 own+next, 3 next only
-	toKind := rt.Choice("tohost", 4)     // 0 exact static route, 1 wildcard, 2 only default, 3 none
+	toKind := rt.Choice("tohost", 5)     // 0 exact static route, 1 wildcard, 2 only default, 3 none, 4 wildcard whose pattern sorts after the word "default"
 	ruriKind := rt.Choice("ruri", 8)     // 0 literal, 1 regex-only, 2 user@host name, 3 urn, 4 tel, 5 listener addr:port, 6 foreign, 7 another user at the named host
 	keep := rt.Bool("keep-next-hop")
-	routes := [][3]string{{"udp", "static.example.org", "10.0.5.1:5071"}, {"tcp", "*.wild.example.org", "10.0.5.2"}}
-	if toKind == 2 {
+	routes := [][3]string{{"udp", "static.example.org", "10.0.5.1:5071"}, {"tcp", "*.wild.example.org", "10.0.5.2"}, {"tcp", "sip*.late.example.org", "10.0.5.4:5074"}}
+	// a default entry is the answer for kind 2 and must not matter when a better entry matches
+	if toKind == 2 || ((toKind == 0 || toKind == 1 || toKind == 4) && rt.Bool("default-configured-too")) {
 		routes = append(routes, [3]string{"udp", "default", "10.0.5.3:5073"})
 	}
 	w := newWorld(worldOpts{name: c03Names, nBackends: 2, keepNextHop: keep, routes: routes, hosts: map[string]string{"proxy.example.com": wListenAddr}})
@@ -95,8 +96,9 @@ func VC03_Decision() {
 		head += "Route: " + next + "\r\n"
 	}
 	// To host
-	toHost := []string{"static.example.org", rt.Str("wild", "[a-z0-9-]", 1, L) + ".wild.example.org", rt.Str("unrouted", "[a-z]", 1, L) + ".nowhere.example.net", rt.Str("unrouted", "[a-z]", 1, L) + ".nowhere.example.net"}[toKind]
-	staticDest := []string{"udp:10.0.5.1:5071", "tcp:10.0.5.2:5060", "udp:10.0.5.3:5073", ""}[toKind]
+	toHost := []string{"static.example.org", rt.Str("wild", "[a-z0-9-]", 1, L) + ".wild.example.org", rt.Str("unrouted", "[a-z]", 1, L) + ".nowhere.example.net", rt.Str("unrouted", "[a-z]", 1, L) + ".nowhere.example.net",
+		"sip" + rt.Str("late", "[a-z0-9-]", 0, L) + ".late.example.org"}[toKind]
+	staticDest := []string{"udp:10.0.5.1:5071", "tcp:10.0.5.2:5060", "udp:10.0.5.3:5073", "", "tcp:10.0.5.4:5074"}[toKind]
 	// Request-URI
 	sip, user, host, ruri := true, "", "", ""
 	switch ruriKind {
